@@ -30,7 +30,7 @@ PROFILE = {
 }
 
 
-E2_PROFILE = {'weights': {'app': 12, 'down': 6, 'up': 3, 'state': 5, 'bl': 3, 'blchurn': 4, 'adv': 4, 'adv_ret': 4, 'downseq': 5, 'downrestart': 4, 'freezeflip': 2, 'stalemark': 3, 'flap': 3, 'restart': 2, 'integrity': 2, 'running': 2}, 'force': ['down', 'adv_ret', 'downseq', 'downrestart', 'flap', 'blchurn'], 'lease': False}
+E2_PROFILE = {'weights': {'app': 12, 'down': 6, 'up': 3, 'state': 5, 'bl': 3, 'blchurn': 4, 'adv': 4, 'adv_ret': 4, 'downseq': 5, 'downrestart': 4, 'stateburst': 4, 'freezeflip': 2, 'stalemark': 3, 'flap': 3, 'restart': 2, 'integrity': 2, 'running': 2}, 'force': ['stateburst', 'down', 'adv_ret', 'downseq', 'downrestart', 'flap', 'blchurn'], 'lease': False}
 
 
 def strategy(tier):
